@@ -18,6 +18,16 @@ Implementation under test (real code, in-process):
      document under the user variables of THAT step
   E. a sample of the cases is run again at the end of the run, in another order, after all the other cases (and
      once more with logging enabled at DEBUG level): the implementation must answer as it did the first time
+  F. platforms (case['plats'], comp['over'], case['drive']): the document lists further platforms with their own
+     variable sections, components carry `override: {<platform>: {...}}` blocks restating references /
+     command.arguments / variables / workflowAttributes; everything above is driven for every platform of
+     case['drive'] (FlowIRConcrete(doc, platform).replicate(platform), instance(platform) + apply_replicate,
+     graphFromFlowIR(platform=...), packageFromLocation / parametrize with a platform per step) and the replicated
+     FlowIR is ALSO read back the way every consumer reads it: FlowIRConcrete(replicated, platform)
+     .get_component_configuration(id, raw=True) (the kept override block layered over the component).  The oracle
+     is applied to the workflow the document stands for on that platform (`effective`).
+  G. references inside component-level variables (comp['rvars'], also in override blocks), used on the command line
+     through %(name)s: in copy i the variable names copy i of a replicated producer
 Components may define `replica` themselves (also the stage / the global scope / the user variables): copy i must see i.
 Replica counts and aggregate flags may be given through %(var)s with the same variable name defined at several scopes
 (global, stage, the component itself, sibling components): the oracle resolves each in the component's OWN scope chain.
@@ -118,6 +128,64 @@ def is_agg(case, c):
 
 
 
+PLATFORMS = ['hpc', 'cloud', 'lsf-gpu']
+RVAR_NAMES = ['inp', 'src-data', 'in_1', 'feed']
+
+
+def has_platforms(case):
+    return bool(case.get('plats')) or any(c.get('over') for c in case['comps'])
+
+
+def drive_of(case):
+    return list(case.get('drive') or ['default'])
+
+
+def _layer_comp(c, o):
+    """component c with its block `override.<platform>` = o layered on top (FlowIR.override_object: dictionaries are
+    merged key by key, lists and strings are replaced)"""
+    c = dict(c)
+    c.pop('over', None)
+    if not o:
+        return c
+    if o.get('refs') is not None:
+        c['refs'] = copy.deepcopy(o['refs'])
+    if o.get('args') is not None:
+        c['args'] = o['args']
+    if o.get('vars'):
+        c['vars'] = dict(c.get('vars') or {}, **o['vars'])
+    if o.get('rvars'):
+        c['rvars'] = dict(c.get('rvars') or {}, **copy.deepcopy(o['rvars']))
+    if o.get('repl') is not None:
+        c['repl'] = copy.deepcopy(o['repl'])
+    if o.get('agg') is not None:
+        c['agg'] = copy.deepcopy(o['agg'])
+    return c
+
+
+def effective(case, platform):
+    """The workflow the document stands for on `platform` (a plain case: no platforms, no override blocks): global
+    variables = default global section updated with the platform's; variables of a stage = default section of the
+    stage without the names the platform's global section defines, updated with the platform's section of the stage;
+    every component with its `override.<platform>` block layered on top."""
+    case = normalise(case)
+    if not has_platforms(case):
+        return case
+    c2 = {k: copy.deepcopy(v) for k, v in case.items() if k not in ('plats', 'drive', 'comps')}
+    pv = ((case.get('plats') or {}).get(platform) or {}) if platform != 'default' else {}
+    pg = pv.get('global') or {}
+    c2['gvars'] = dict(case.get('gvars') or {}, **pg)
+    svars = {}
+    for st in sorted({str(c['stage']) for c in case['comps']} | set(case.get('svars') or {}) | set(pv.get('stages') or {})):
+        d = {k: v for k, v in ((case.get('svars') or {}).get(st) or {}).items() if k not in pg}
+        d.update((pv.get('stages') or {}).get(st) or {})
+        if d:
+            svars[st] = d
+    c2['svars'] = svars
+    c2['comps'] = [_layer_comp(copy.deepcopy(c), (c.get('over') or {}).get(platform) if platform != 'default' else None)
+                   for c in case['comps']]
+    return c2
+
+
 def _mods():
     import experiment.model.frontends.flowir as F
     import experiment.model.graph as G
@@ -152,24 +220,14 @@ def build_doc(case):
         d = {'name': c['name'], 'stage': c['stage'],
              'command': {'executable': 'echo', 'arguments': c['args']},
              'references': [render(r) for r in c['refs']]}
-        if c.get('vars'):
-            d['variables'] = dict(c['vars'])
-        wa = {}
-        rp = c.get('repl')
-        if rp is not None:
-            how = rp['how']
-            if how == 'int':
-                wa['replicate'] = rp['n']
-            elif how == 'str':
-                wa['replicate'] = str(rp['n'])
-            else:
-                wa['replicate'] = '%%(%s)s' % rp['var']
-        if isinstance(c.get('agg'), dict):
-            wa['aggregate'] = '%%(%s)s' % c['agg']['var']
-        elif c.get('agg') is not None:
-            wa['aggregate'] = c['agg']
-        if wa:
-            d['workflowAttributes'] = wa
+        d.update(_doc_fields(c))
+        for plat, o in sorted((c.get('over') or {}).items()):
+            blk = _doc_fields(o)
+            if o.get('refs') is not None:
+                blk['references'] = [render(r) for r in o['refs']]
+            if o.get('args') is not None:
+                blk['command'] = {'arguments': o['args']}
+            d.setdefault('override', {})[plat] = blk
         comps.append(d)
     order = case.get('order') or list(range(len(comps)))
     doc = {'components': [comps[i] for i in order]}
@@ -177,7 +235,46 @@ def build_doc(case):
     svars = {int(k): dict(v) for k, v in (case.get('svars') or {}).items() if v}
     if gvars or svars:
         doc['variables'] = {'default': {'global': gvars, 'stages': svars}}
+    if has_platforms(case):
+        names = sorted(set(case.get('plats') or {}) | {p for c in case['comps'] for p in (c.get('over') or {})})
+        doc['platforms'] = ['default'] + names
+        for p in names:
+            pv = (case.get('plats') or {}).get(p) or {}
+            sec = {}
+            if pv.get('global'):
+                sec['global'] = dict(pv['global'])
+            if pv.get('stages'):
+                sec['stages'] = {int(k): dict(v) for k, v in pv['stages'].items() if v}
+            if sec:
+                doc.setdefault('variables', {})[p] = sec
     return doc
+
+
+def _doc_fields(c):
+    """variables / workflowAttributes of a component or of an override block"""
+    d = {}
+    vs = dict(c.get('vars') or {})
+    for k, r in (c.get('rvars') or {}).items():
+        vs[k] = render(r)
+    if vs:
+        d['variables'] = vs
+    wa = {}
+    rp = c.get('repl')
+    if rp is not None:
+        how = rp['how']
+        if how == 'int':
+            wa['replicate'] = rp['n']
+        elif how == 'str':
+            wa['replicate'] = str(rp['n'])
+        else:
+            wa['replicate'] = '%%(%s)s' % rp['var']
+    if isinstance(c.get('agg'), dict):
+        wa['aggregate'] = '%%(%s)s' % c['agg']['var']
+    elif c.get('agg') is not None:
+        wa['aggregate'] = c['agg']
+    if wa:
+        d['workflowAttributes'] = wa
+    return d
 
 
 def _pairs(d):
@@ -200,24 +297,40 @@ def _spec_agg(a):
     return {'lit': str(a)}
 
 
-def model_request(case):
-    """the raw document: the model resolves the attributes itself (ReplVars.resolveAll)"""
+def _all_vars(c):
+    vs = dict(c.get('vars') or {})
+    for k, r in (c.get('rvars') or {}).items():
+        vs[k] = render(r)
+    return _pairs(vs)
+
+
+def model_request(case, platform='default'):
+    """the raw document: the model layers the platform sections and the override blocks of `platform` itself
+    (ReplOver.platGlobal / platStage / layerRaw) and resolves the attributes (ReplVars.resolveAll)"""
     case = normalise(case)
     comps = []
     for c in case['comps']:
-        comps.append({'stage': c['stage'], 'name': c['name'], 'vars': _pairs(c.get('vars')),
+        o = (c.get('over') or {}).get(platform) if platform != 'default' else None
+        comps.append({'stage': c['stage'], 'name': c['name'], 'vars': _all_vars(c),
                       'repl': _spec_repl(c.get('repl')), 'agg': _spec_agg(c.get('agg')), 'args': c['args'],
-                      'refs': [dict(r) for r in c['refs']]})
+                      'refs': [dict(r) for r in c['refs']],
+                      'over': None if o is None else {
+                          'refs': None if o.get('refs') is None else [dict(r) for r in o['refs']],
+                          'args': o.get('args'), 'vars': _all_vars(o),
+                          'repl': _spec_repl(o.get('repl')), 'agg': _spec_agg(o.get('agg'))}})
+    pv = ((case.get('plats') or {}).get(platform) or {}) if platform != 'default' else {}
     return {'op': 'expand', 'comps': comps, 'gvars': _pairs(case.get('gvars')),
-            'svars': sorted([int(k), _pairs(v)] for k, v in (case.get('svars') or {}).items())}
+            'svars': sorted([int(k), _pairs(v)] for k, v in (case.get('svars') or {}).items()),
+            'pgvars': _pairs(pv.get('global')),
+            'psvars': sorted([int(k), _pairs(v)] for k, v in (pv.get('stages') or {}).items())}
 
 
 def model_history_request(case):
     """the same history on the model of the configuration object (ReplConf.construct / parametrize)"""
-    req = model_request(case)
+    req = model_request(effective(case, history_platforms(case)[0]))
     req['op'] = 'history'
     steps = []
-    for _label, files, prim in history_steps(case):
+    for _label, files, prim, _plat in history_steps(case):
         uv = layer_files(files)
         steps.append({'g': _pairs(uv['global']), 'svars': sorted([int(k), _pairs(v)] for k, v in uv['stages'].items()),
                       'primitive': prim})
@@ -276,7 +389,9 @@ def _graph_view(g):
             conf = g.configurationForNode(n)
             res['resolved'][n] = {'replica': None if (conf.get('variables') or {}).get('replica') is None
                                   else str(conf['variables']['replica']),
-                                  'args': str((conf.get('command') or {}).get('arguments', ''))}
+                                  'args': str((conf.get('command') or {}).get('arguments', '')),
+                                  'refs': [str(x) for x in (conf.get('references') or [])],
+                                  'stage': conf.get('stage', 0)}
         except Exception as exc:  # noqa
             res['resolved'][n] = {'error': classify_exc(exc)}
     return res
@@ -292,25 +407,44 @@ def case_orders(case):
     return orders
 
 
-def impl_run(case):
+def _layered_view(flowir, platform, concrete=None):
+    """The replicated FlowIR read back the way its consumers read it: for every component
+    get_component_configuration(id, raw=True, platform) = the kept block override.<platform> layered over the
+    component (references, command line, component-level variables)."""
+    F, _ = _mods()
+    try:
+        c2 = concrete if concrete is not None else F.FlowIRConcrete(flowir, platform, {})
+        comps = []
+        for x in (flowir['components'] if flowir is not None else c2.get_components()):
+            k = (x.get('stage', 0), x['name'])
+            comps.append(c2.get_component_configuration(k, raw=True, include_default=False, platform=platform))
+        return _view(comps)
+    except Exception as exc:  # noqa
+        return {'error': classify_exc(exc)}
+
+
+def impl_run(case, platform='default', with_history=True):
     F, G = _mods()
     case = normalise(case)
     doc = build_doc(case)
+    layered = has_platforms(case)
     out = {}
     prev = logging.root.manager.disable
     logging.disable(logging.CRITICAL)
     try:
         try:
-            conc = F.FlowIRConcrete(copy.deepcopy(doc), 'default', {})
-            rep = conc.replicate(ignore_errors=True)
+            conc = F.FlowIRConcrete(copy.deepcopy(doc), platform, {})
+            rep = conc.replicate(platform=platform, ignore_errors=True)
             out['comps'] = _view(rep['components'])
+            if layered:
+                out['layered'] = _layered_view(rep, platform)
         except Exception as exc:  # noqa
             out['replicate_error'] = classify_exc(exc)
         # C: what replicate() does, with the components handed to apply_replicate in a chosen order
         runs = []
         try:
-            conc = F.FlowIRConcrete(copy.deepcopy(doc), 'default', {})
-            inst = conc.instance('default', ignore_errors=True, fill_in_all=False)
+            conc = F.FlowIRConcrete(copy.deepcopy(doc), platform, {})
+            inst = conc.instance(platform, ignore_errors=True, fill_in_all=False)
             byid = {(x.get('stage', 0), x['name']): x for x in inst['components']}
             pvars = inst['variables']['default']
             app_deps = conc.get_application_dependencies()
@@ -322,20 +456,34 @@ def impl_run(case):
                 try:
                     res = F.FlowIR.apply_replicate(comps, copy.deepcopy(pvars), False, list(app_deps),
                                                    top_level_folders=None)
-                    runs.append({'order': order, 'comps': _view(res)})
+                    run = {'order': order, 'comps': _view(res)}
+                    if layered:
+                        inst2 = copy.deepcopy({k: v for k, v in inst.items() if k != 'components'})
+                        inst2['components'] = res
+                        run['layered'] = _layered_view(inst2, platform)
+                    runs.append(run)
                 except Exception as exc:  # noqa
                     runs.append({'order': order, 'error': classify_exc(exc)})
         out['runs'] = runs
         try:
-            g = G.WorkflowGraph.graphFromFlowIR(copy.deepcopy(doc), {}, primitive=False)
+            g = G.WorkflowGraph.graphFromFlowIR(copy.deepcopy(doc), {}, platform=platform, primitive=False)
             out.update(_graph_view(g))
         except Exception as exc:  # noqa
             out['graph_error'] = classify_exc(exc)
-        if case.get('history'):
+        if case.get('history') and with_history:
             out['history'] = impl_history(case, doc)
     finally:
         logging.disable(prev)
     return out
+
+
+def impl_all(case):
+    """{platform: impl_run} for every platform the case is driven on (the history, which names the platform of
+    every step itself, is run once)"""
+    outs = {}
+    for k, p in enumerate(drive_of(case)):
+        outs[p] = impl_run(case, p, with_history=(k == 0))
+    return outs
 
 
 # ----------------------------------------------------------------------------------------
@@ -368,19 +516,27 @@ def with_user_vars(case, files):
 
 
 def history_steps(case):
-    """[(label, user variable files, primitive)] of the steps of case['history'], the derived ones included"""
+    """[(label, user variable files, primitive, platform)] of the steps of case['history'], the derived ones included"""
     h = case['history']
-    steps = [('step%d' % k, s.get('files') or [], bool(s.get('primitive'))) for k, s in enumerate(h['steps'])]
+    steps = [('step%d' % k, s.get('files') or [], bool(s.get('primitive')), s.get('platform') or 'default')
+             for k, s in enumerate(h['steps'])]
     if h.get('instantiate'):
-        last = steps[-1][1]
-        steps.append(('instantiate', last, False))
-        steps.append(('reload-instance', last, False))
+        last = steps[-1]
+        steps.append(('instantiate', last[1], False, last[3]))
+        steps.append(('reload-instance', last[1], False, last[3]))
     return steps
 
 
-def _conf_view(conf, g):
+def history_platforms(case):
+    return [s[3] for s in history_steps(case)]
+
+
+def _conf_view(conf, g, layered=False):
     concrete = conf.get_flowir_concrete(return_copy=False)
     res = {'comps': _view(concrete.get_components())}
+    if layered:
+        res['layered'] = _layered_view(None, conf.platform_name, concrete=concrete)
+        res['platform'] = conf.platform_name
     res.update(_graph_view(g))
     return res
 
@@ -393,6 +549,7 @@ def impl_history(case, doc):
     import experiment.model.conf as CF
     import experiment.model.data as DT
     h = case['history']
+    layered = has_platforms(case)
     root = tempfile.mkdtemp(prefix='c03-hist-')
     res = []
     cwd = os.getcwd()
@@ -422,31 +579,33 @@ def impl_history(case, doc):
         for k, st in enumerate(h['steps']):
             paths = write_files(k, st.get('files'))
             prim = bool(st.get('primitive'))
+            plat = st.get('platform')           # None: the default platform
             try:
                 g = None
                 if h['entry'] == 'package':
                     if k == 0:
-                        package = ST.ExperimentPackage.packageFromLocation(pkg, primitive=prim, variable_files=paths)
+                        package = ST.ExperimentPackage.packageFromLocation(pkg, platform=plat, primitive=prim,
+                                                                           variable_files=paths)
                         conf = package.configuration
                     else:
                         g = G.WorkflowGraph.graphFromPackage(
-                            package, primitive=prim, variable_files=paths, createInstanceConfiguration=False,
-                            updateInstanceConfiguration=False)
+                            package, platform=plat, primitive=prim, variable_files=paths,
+                            createInstanceConfiguration=False, updateInstanceConfiguration=False)
                         conf = g.configuration
                 else:
                     if k == 0:
                         conf = CF.ExperimentConfigurationFactory.configurationForExperiment(
-                            pkg, createInstanceFiles=False, updateInstanceFiles=False, primitive=prim,
+                            pkg, platform=plat, createInstanceFiles=False, updateInstanceFiles=False, primitive=prim,
                             variable_files=paths)
                     else:
-                        conf.parametrize(platform=None, variable_files=paths, systemvars=None, is_instance=False,
+                        conf.parametrize(platform=plat, variable_files=paths, systemvars=None, is_instance=False,
                                          createInstanceFiles=False, primitive=prim, updateInstanceFiles=False)
                 if prim:
                     res.append(None)
                     continue
                 if g is None:
                     g = G.WorkflowGraph(conf, platform=conf.platform_name, primitive=False)
-                res.append(_conf_view(conf, g))
+                res.append(_conf_view(conf, g, layered))
             except Exception as exc:  # noqa
                 res.append({'error': classify_exc(exc)})
                 if conf is None:
@@ -458,8 +617,9 @@ def impl_history(case, doc):
             try:
                 if package is None:
                     package = ST.ExperimentPackage.packageFromLocation(pkg)
-                exp = DT.Experiment.experimentFromPackage(package, location=root, variable_files=paths or None)
-                res.append(_conf_view(exp.configuration, exp.experimentGraph))
+                exp = DT.Experiment.experimentFromPackage(package, location=root, variable_files=paths or None,
+                                                          platform=h['steps'][-1].get('platform'))
+                res.append(_conf_view(exp.configuration, exp.experimentGraph, layered))
             except Exception as exc:  # noqa
                 res.append({'error': classify_exc(exc)})
             try:
@@ -469,7 +629,7 @@ def impl_history(case, doc):
                 g = G.WorkflowGraph.graphFromExperimentInstanceDirectory(
                     exp.instanceDirectory, primitive=False, createInstanceConfiguration=False,
                     updateInstanceConfiguration=False)
-                res.append(_conf_view(g.configuration, g))
+                res.append(_conf_view(g.configuration, g, layered))
             except Exception as exc:  # noqa
                 res.append({'error': classify_exc(exc)})
     finally:
@@ -537,8 +697,12 @@ def expected(case):
                         refs.append(['comp', r['stage'], '%s%d' % (r['name'], i), r.get('file'), r['method']])
                     else:
                         refs.append(['comp', r['stage'], r['name'], r.get('file'), r['method']])
+                rvars = {}
+                for a, r in (c.get('rvars') or {}).items():
+                    rvars[a] = ['comp', r['stage'], ('%s%d' % (r['name'], i)) if (r['stage'], r['name']) in region
+                                else r['name'], r.get('file'), r['method']]
                 res.append({'id': cid(c['stage'], '%s%d' % (c['name'], i)), 'stage': c['stage'], 'refs': refs,
-                            'replica': i, 'replicate': n, 'of': cid(*k),
+                            'replica': i, 'replicate': n, 'of': cid(*k), 'rvars': rvars,
                             'vars': dict({str(a): str(b) for a, b in (c.get('vars') or {}).items()},
                                          replica=str(i))})
         else:
@@ -552,7 +716,9 @@ def expected(case):
                 else:
                     refs.append(['comp', r['stage'], r['name'], r.get('file'), r['method']])
             res.append({'id': cid(*k), 'stage': c['stage'], 'refs': refs, 'replica': None, 'replicate': None,
-                        'of': cid(*k), 'vars': {str(a): str(b) for a, b in (c.get('vars') or {}).items()}})
+                        'of': cid(*k), 'vars': {str(a): str(b) for a, b in (c.get('vars') or {}).items()},
+                        'rvars': {a: ['comp', r['stage'], r['name'], r.get('file'), r['method']]
+                                  for a, r in (c.get('rvars') or {}).items()}})
     nodes = [o['id'] for o in res]
     if len(set(nodes)) != len(nodes):
         return {'error': 'duplicate'}
@@ -589,13 +755,26 @@ def _check_components(exp, comps, where):
             # a value that refers to another variable may be handed back resolved (configuration object) or as
             # written (FlowIR dictionary): not compared
             got_replica = want_replica
-        if got_replica != want_replica or (o['replica'] is not None and g['replicate'] != o['replicate']):
+        got_replicate = g['replicate']
+        if isinstance(got_replicate, str):
+            # (read back through an override block that restates workflowAttributes.replicate: as written there)
+            got_replicate = int(got_replicate) if got_replicate.isdigit() else o['replicate']
+        if got_replica != want_replica or (o['replica'] is not None and got_replicate != o['replicate']):
             fails.append(('wrong-replica-variable', dict(where, component=k, expected=[want_replica, o['replicate']],
                                                          got=[g['replica'], g['replicate']])))
-        nested = {a for a, b in o['vars'].items() if '%(' in b}
+        nested = {a for a, b in o['vars'].items() if '%(' in b} | set(o.get('rvars') or {})
         if 'vars' in g and {a: b for a, b in g['vars'].items() if a != 'replica' and a not in nested} != \
                 {a: b for a, b in o['vars'].items() if a != 'replica' and a not in nested}:
             fails.append(('component-variables-changed', dict(where, component=k, expected=o['vars'], got=g['vars'])))
+        # a component-level variable that holds a reference: in copy i it names copy i of a replicated producer
+        for a, wantv in sorted((o.get('rvars') or {}).items()):
+            gotv = (g.get('vars') or {}).get(a)
+            pr = parse_ref(gotv, g['stage']) if gotv is not None else None
+            if pr != wantv:
+                fails.append(('wrong-reference-in-variable', dict(where, component=k, variable=a, expected=wantv,
+                                                                  got=gotv)))
+            elif cid(pr[1], pr[2]) not in ids:
+                fails.append(('dangling-reference', dict(where, component=k, variable=a, reference=pr)))
     return fails
 
 
@@ -614,6 +793,11 @@ def _check_resolved(case, exp, resolved, where):
         if 'error' in r:
             fails.append(('configuration-of-node-raises', dict(where, component=o['id'], error=r['error'])))
             continue
+        if 'refs' in r:
+            prs = [parse_ref(x, r.get('stage', o['stage'])) for x in r['refs']]
+            if prs != o['refs']:
+                fails.append(('wrong-references-of-graph-node', dict(where, component=o['id'], expected=o['refs'],
+                                                                     got=r['refs'])))
         toks = REPLICA_TOKEN.findall(r['args'])
         if o['replica'] is not None:
             want = str(o['replica'])
@@ -640,6 +824,7 @@ def _check_view(case, exp, view, where):
     if 'error' in view:
         return [('loader-rejects-valid-workflow', dict(where, error=view['error']))]
     fails.extend(_check_components(exp, view['comps'], where))
+    fails.extend(_check_layered(exp, view.get('layered'), where))
     if view['nodes'] != exp['nodes']:
         fails.append(('wrong-node-set', dict(where, expected=exp['nodes'], got=view['nodes'])))
     if view['edges'] != exp['edges']:
@@ -648,32 +833,58 @@ def _check_view(case, exp, view, where):
     return fails
 
 
+def _check_layered(exp, layered, where):
+    """the replicated FlowIR read back through get_component_configuration(platform) against the expected expansion"""
+    if layered is None:
+        return []
+    where = dict(where, read_through='FlowIRConcrete.get_component_configuration(raw=True, platform)')
+    if isinstance(layered, dict):
+        return [('replicated-flowir-cannot-be-read-back', dict(where, error=layered['error']))]
+    return _check_components(exp, layered, where)
+
+
 def oracle_history(case, out):
     fails = []
     hist = out.get('history') or []
     steps = history_steps(case)
-    for k, (label, files, prim) in enumerate(steps):
+    for k, (label, files, prim, plat) in enumerate(steps):
         if prim:
             continue
-        where = {'path': 'history:%s' % case['history']['entry'], 'step': label,
+        where = {'path': 'history:%s' % case['history']['entry'], 'step': label, 'platform': plat,
                  'user_variables': layer_files(files)}
         if k < len(hist) and hist[k] is not None and 'skipped' in hist[k]:
             continue
         if k >= len(hist) or hist[k] is None:
             fails.append(('history-step-not-observed', where))
             continue
-        c2 = with_user_vars(case, files)
+        c2 = with_user_vars(effective(case, plat), files)
         fails.extend(_check_view(c2, expected(c2), hist[k], where))
     return fails
 
 
-def oracle(case, out):
-    """list of (slug, detail) — empty when the implementation's result is what the property requires"""
+def oracle_all(case, outs):
+    """the oracle on every platform the case is driven on"""
+    fails = []
+    for p in drive_of(case):
+        fails.extend(oracle(case, outs[p], p))
+    seen, uniq = set(), []
+    for w, d in fails:
+        if w not in seen:
+            seen.add(w)
+            uniq.append((w, d))
+    return uniq
+
+
+def oracle(case, out, platform='default'):
+    """list of (slug, detail) — empty when the implementation's result is what the property requires of the workflow
+    the document stands for on `platform`"""
+    full = case
+    case = effective(case, platform)
     exp = expected(case)
     fails = []
-    if case.get('history'):
-        fails.extend(oracle_history(case, out))
-    fails.extend(_oracle_main(case, exp, out))
+    if full.get('history') and 'history' in out:
+        fails.extend(oracle_history(full, out))
+    fails.extend((w, dict(d, platform=platform)) for w, d in _oracle_main(case, exp, out))
     seen, uniq = set(), []
     for w, d in fails:          # one failure per slug is enough for the verdict; keep the first of each
         if w not in seen:
@@ -701,6 +912,7 @@ def _oracle_main(case, exp, out):
     if 'replicate_error' in out:
         return [('replication-raises-on-valid-workflow', {'error': out['replicate_error']})]
     fails.extend(_check_components(exp, out['comps'], {'path': 'FlowIRConcrete.replicate'}))
+    fails.extend(_check_layered(exp, out.get('layered'), {'path': 'FlowIRConcrete.replicate'}))
     # the same expansion whatever the order in which the components are processed
     for r in out.get('runs', []):
         where = {'path': 'FlowIR.apply_replicate', 'processing_order': r['order']}
@@ -708,6 +920,7 @@ def _oracle_main(case, exp, out):
             fails.append(('replication-raises-on-valid-workflow', dict(where, error=r['error'])))
         else:
             fails.extend(_check_components(exp, r['comps'], where))
+            fails.extend(_check_layered(exp, r.get('layered'), where))
     if 'graph_error' in out:
         fails.append(('loader-rejects-valid-workflow', {'error': out['graph_error']}))
     else:
@@ -957,6 +1170,174 @@ def gen_history_case(rng):
     return None
 
 
+def _same_ref(a, b):
+    return a['comp'] and b['comp'] and (a['stage'], a['name'], a.get('file'), a['method']) == \
+        (b['stage'], b['name'], b.get('file'), b['method'])
+
+
+def add_platforms(rng, case):
+    """Adds 1-2 platforms to a plain case: platform sections of the variables the counts / flags come from (global
+    and stage sections, so that the platform's global value competes with the default section of the stage), and
+    component-level `override.<platform>` blocks that restate references (re-spelled, reordered, with further
+    producers, sometimes without one), command.arguments, variables (decoys for the count / flag variables, `replica`,
+    names nobody reads), workflowAttributes.replicate / aggregate."""
+    comps = case['comps']
+    names = rng.sample(PLATFORMS, rng.choice([1, 1, 2]))
+    cvars = sorted({c['repl']['var'] for c in comps if (c.get('repl') or {}).get('how') == 'var'})
+    fvars = sorted({c['agg']['var'] for c in comps if isinstance(c.get('agg'), dict)})
+    stages = sorted({c['stage'] for c in comps})
+    counts = [count_of(case, c) for c in comps if c.get('repl')]
+    counts = [n for n in counts if isinstance(n, int)] or [2]
+    case['plats'] = {}
+    for p in names:
+        pv = {'global': {}, 'stages': {}}
+        newn = rng.choice([1, 2, 3, 4, 5]) if rng.random() < 0.9 else 11
+        for v in cvars:
+            r = rng.random()
+            if r < 0.45:
+                pv['global'][v] = _fmt_count(rng, newn)
+            elif r < 0.6:
+                pv['stages'].setdefault(str(rng.choice(stages)), {})[v] = _fmt_count(rng, newn)
+        for v in fvars:
+            if rng.random() < 0.3:
+                pv['global'][v] = _fmt_flag(rng, rng.random() < 0.5)
+        if rng.random() < 0.15:
+            pv['global']['replica'] = rng.choice(REPLICA_VALUES)
+        if rng.random() < 0.2:
+            pv['global']['unused'] = 'x'
+        case['plats'][p] = pv
+        for idx, c in enumerate(comps):
+            if rng.random() > (0.6 if c['refs'] else 0.25):
+                continue
+            o = {}
+            earlier = comps[:idx]
+            if c['refs'] and rng.random() < 0.75:
+                refs = []
+                for r in c['refs']:
+                    if rng.random() < 0.12 and len(c['refs']) > 1 and \
+                            not any(_same_ref(r, x) for x in (c.get('rvars') or {}).values()):
+                        continue                                  # the platform does without this producer
+                    r2 = dict(r)
+                    if r['comp'] and r['stage'] == c['stage'] and rng.random() < 0.4:
+                        r2['long'] = not r['long']
+                    refs.append(r2)
+                for q in rng.sample(earlier, min(len(earlier), rng.choice([0, 0, 1, 1, 2]))):
+                    refs.append(gen_ref(rng, c['stage'], q))
+                rng.shuffle(refs)
+                o['refs'] = refs
+                o['args'] = gen_args(rng, {'refs': refs, 'stage': c['stage']}, comps)
+            elif c['refs'] and rng.random() < 0.5:
+                o['args'] = (rng.choice(['-p ', '--platform ', '']) + gen_args(rng, c, comps)).strip()
+            if rng.random() < 0.35:
+                vs = {}
+                for v in cvars + fvars:
+                    if rng.random() < 0.4:
+                        vs[v] = _fmt_count(rng, rng.choice(counts + [newn])) if v in cvars \
+                            else _fmt_flag(rng, rng.random() < 0.5)
+                if rng.random() < 0.35:
+                    vs['replica'] = rng.choice(REPLICA_VALUES)
+                if rng.random() < 0.3:
+                    vs['unused'] = 'y'
+                if vs:
+                    o['vars'] = vs
+            if c.get('repl') and rng.random() < 0.25:
+                # (inside an override block the loader accepts an int or %(var)s, a bool or %(var)s: no "3" / "yes")
+                o['repl'] = {'how': 'int', 'n': rng.choice(counts + [newn])}
+            if c['refs'] and not c.get('rvars') and rng.random() < 0.12:
+                o['agg'] = not flag_value(c.get('agg')) or isinstance(c.get('agg'), dict)
+            if o:
+                if 'args' in o and ('%(replica)s' in c['args']):
+                    o['args'] = (o['args'] + ' rep=%(replica)s').strip()
+                c.setdefault('over', {})[p] = o
+    case['drive'] = rng.choice([[names[0]], [names[0]], ['default', names[0]], list(names), [names[-1], 'default']])
+
+
+def add_reference_variables(rng, case):
+    """component-level variables that hold a reference (comp['rvars'], also inside override blocks) and are used on
+    the command line through %(name)s; only in components that never aggregate and only references the component
+    declares on every platform where the variable is visible"""
+    plats = sorted(case.get('plats') or {})
+    for c in case['comps']:
+        if c.get('agg') is not None or any((o.get('agg') is not None) for o in (c.get('over') or {}).values()):
+            continue
+        lists = [c['refs']] + [o['refs'] for o in (c.get('over') or {}).values() if o.get('refs') is not None]
+        common = [r for r in c['refs'] if r['comp'] and r['method'] != 'copyout'
+                  and all(any(_same_ref(r, x) for x in l) for l in lists)]
+        if common and rng.random() < 0.4:
+            r = dict(rng.choice(common))
+            if r['stage'] == c['stage'] and rng.random() < 0.4:
+                r['long'] = not r['long']
+            nm = rng.choice(RVAR_NAMES)
+            c.setdefault('rvars', {})[nm] = r
+            c['args'] = (c['args'] + ' --%s=%%(%s)s' % (nm, nm)).strip()
+        for p in plats:
+            o = (c.get('over') or {}).get(p)
+            if not o or rng.random() > 0.4:
+                continue
+            refs = [r for r in (o['refs'] if o.get('refs') is not None else c['refs'])
+                    if r['comp'] and r['method'] != 'copyout']
+            if refs:
+                nm = rng.choice(RVAR_NAMES)
+                o.setdefault('rvars', {})[nm] = dict(rng.choice(refs))
+                if o.get('args') is not None:
+                    o['args'] = (o['args'] + ' --%s=%%(%s)s' % (nm, nm)).strip()
+
+
+def _restated(case, p):
+    """does some override block of platform p restate references / the command line / variables"""
+    return any(((c.get('over') or {}).get(p) or {}) for c in case['comps'])
+
+
+def gen_platform_case(rng, with_history=False):
+    """a workflow with platforms, driven on non-default platforms"""
+    best = None
+    for _ in range(12):
+        case = gen_case(rng, kind=rng.choice(['overlap', 'chain', 'plain', 'cross-stage', 'scopes']),
+                        p_var=rng.choice([0.3, 0.9]), p_sibling=0.3, p_own=0.25)
+        if 'error' in expected(case):
+            continue
+        add_platforms(rng, case)
+        add_reference_variables(rng, case)
+        case['kind'] = 'platform'
+        case['orders'] = case['orders'][:3]
+        if any('%(replica)s' in c['args'] for c in case['comps']):
+            # a platform may turn a member of the region into an aggregator / a plain component: its command line
+            # must still resolve (to the global value) -- copies see their index nevertheless
+            case['gvars'].setdefault('replica', rng.choice(REPLICA_VALUES))
+        if with_history:
+            h = gen_history(rng, case) or {'entry': rng.choice(['package', 'conf']),
+                                           'steps': [{'files': [], 'primitive': False}, {'files': [], 'primitive': False}]}
+            names = ['default'] + sorted(case['plats'])
+            fixed = rng.choice(names[1:]) if rng.random() < 0.5 else None
+            for st in h['steps']:
+                pl = fixed or rng.choice(names)
+                if pl != 'default':
+                    st['platform'] = pl
+            if h['steps'][-1].get('platform') is None:
+                h['steps'][-1]['platform'] = names[1]
+            h.pop('instantiate', None)
+            case['history'] = h
+            case['kind'] = 'platform-history'
+            case['drive'] = case['drive'][:1]
+            case['orders'] = case['orders'][:2]
+            if any('%(replica)s' in c['args'] or '%(replica)s' in str((o or {}).get('args'))
+                   for c in case['comps'] for o in [None] + list((c.get('over') or {}).values())):
+                case['gvars'].setdefault('replica', rng.choice(REPLICA_VALUES))
+        best = case
+        good = [p for p in drive_of(case) if p != 'default' and 'error' not in expected(effective(case, p))
+                and _restated(case, p)]
+        if good or rng.random() < 0.12:
+            return case
+    return best
+
+
+def add_reference_variables_plain(rng, case):
+    case.setdefault('plats', {})
+    add_reference_variables(rng, case)
+    if not case['plats']:
+        case.pop('plats')
+
+
 def gen_orders(rng, n):
     """topological order, its reverse (=> every pair in both relative orders) and random shuffles"""
     orders = [list(range(n)), list(range(n - 1, -1, -1))]
@@ -1031,6 +1412,8 @@ def gen_case(rng, kind=None, p_var=None, p_sibling=None, p_own=0.35):
         assign_scopes(rng, case, 0.45, 0.35)
     if rng.random() < 0.5:
         decorate_replica(rng, case, p_own)
+    if rng.random() < 0.3:
+        add_reference_variables_plain(rng, case)
     return case
 
 
@@ -1080,9 +1463,13 @@ def spelling_overlaps(case):
     return False
 
 
+def _eff_of(case, detail):
+    return effective(case, (detail or {}).get('platform') or 'default')
+
+
 def classify_textual_overlap(what, case, detail):
     return what in ('loader-rejects-valid-workflow', 'wrong-references', 'dangling-reference', 'wrong-edge-set') \
-        and spelling_overlaps(case)
+        and spelling_overlaps(_eff_of(case, detail))
 
 
 def aggregator_repeats_reference(case):
@@ -1105,11 +1492,63 @@ def aggregator_repeats_reference(case):
 
 
 def classify_aggregator_repeat(what, case, detail):
-    return what == 'wrong-references' and aggregator_repeats_reference(case)
+    return what == 'wrong-references' and aggregator_repeats_reference(_eff_of(case, detail))
+
+
+def _step_platforms(case, detail):
+    ps = set()
+    if (detail or {}).get('platform'):
+        ps.add(detail['platform'])
+    return ps - {'default'}
+
+
+def aggregator_override_restates_references(case, platform):
+    """on `platform` some aggregating component that consumes a replicated producer has an override block that
+    restates `references` (unrepaired compile_component_aggregate re-splits only the component's own list)"""
+    eff = effective(case, platform)
+    exp = expected(eff)
+    if 'error' in exp:
+        return False
+    region_of = {o['of'] for o in exp['comps'] if o['replica'] is not None}
+    for c, e in zip(case['comps'], eff['comps']):
+        o = (c.get('over') or {}).get(platform) or {}
+        if o.get('refs') is not None and is_agg(eff, e) is True and \
+                any(r['comp'] and cid(r['stage'], r['name']) in region_of for r in e['refs']):
+            return True
+    return False
+
+
+def classify_aggregator_override_references(what, case, detail):
+    """(until fixes/C03-override-block-replication.diff is applied)"""
+    case = normalise(case)
+    return what in ('loader-rejects-valid-workflow', 'wrong-references', 'dangling-reference', 'wrong-component-set',
+                    'replicated-flowir-cannot-be-read-back', 'wrong-references-of-graph-node', 'wrong-edge-set',
+                    'wrong-node-set') and \
+        any(aggregator_override_restates_references(case, p) for p in _step_platforms(case, detail))
+
+
+def override_defines_replica(case, platform):
+    """on `platform` some member of the replicated region has an override block whose variables define `replica`"""
+    eff = effective(case, platform)
+    exp = expected(eff)
+    if 'error' in exp:
+        return False
+    region_of = {o['of'] for o in exp['comps'] if o['replica'] is not None}
+    return any('replica' in (((c.get('over') or {}).get(platform) or {}).get('vars') or {})
+               and cid(c['stage'], c['name']) in region_of for c in case['comps'])
+
+
+def classify_override_replica(what, case, detail):
+    """(until fixes/C03-override-block-replication.diff is applied)"""
+    case = normalise(case)
+    return what in ('wrong-replica-variable', 'copy-does-not-know-its-replica-index') and \
+        any(override_defines_replica(case, p) for p in _step_platforms(case, detail))
 
 
 CLASSIFIERS = {'c03_reference_spelling_inside_other_token': classify_textual_overlap,
-               'c03_aggregator_declares_reference_twice': classify_aggregator_repeat}
+               'c03_aggregator_declares_reference_twice': classify_aggregator_repeat,
+               'c03_aggregator_override_references_not_split': classify_aggregator_override_references,
+               'c03_override_block_defines_replica': classify_override_replica}
 
 
 def scope_tags(case):
@@ -1138,9 +1577,56 @@ def scope_tags(case):
 
 
 def features(case):
+    """tags + non-triviality; a case with platforms is judged on the platforms it is driven on"""
     case = normalise(case)
+    if not has_platforms(case):
+        return _features(case)
+    tags, nontrivial = set(), False
+    for p in drive_of(case) + (history_platforms(case) if case.get('history') else []):
+        eff = effective(case, p)
+        t, nt = _features(dict(eff, history=None))
+        tags.update(t)
+        tags.add('platform:' + ('default' if p == 'default' else 'non-default'))
+        if p == 'default':
+            continue
+        exp = expected(eff)
+        if 'error' in exp:
+            continue
+        region_of = {o['of'] for o in exp['comps'] if o['replica'] is not None}
+        for c, e in zip(case['comps'], eff['comps']):
+            o = (c.get('over') or {}).get(p)
+            if not o:
+                continue
+            k = cid(c['stage'], c['name'])
+            uses = any(r['comp'] and cid(r['stage'], r['name']) in region_of for r in e['refs'])
+            kind = 'copy' if k in region_of else 'aggregator' if is_agg(eff, e) is True else 'plain'
+            for f in ('refs', 'args', 'vars', 'rvars', 'repl', 'agg'):
+                if o.get(f) is not None and o.get(f) != {}:
+                    tags.add('override:%s:%s' % (kind, f))
+            if 'replica' in (o.get('vars') or {}):
+                tags.add('override:%s:defines-replica' % kind)
+            if uses and (o.get('refs') is not None or o.get('args') is not None or o.get('rvars')):
+                tags.add('override-restates-rewired-strings')
+                nontrivial = nontrivial or nt
+        pv = (case.get('plats') or {}).get(p) or {}
+        if pv.get('global') or pv.get('stages'):
+            tags.add('platform-variable-sections')
+    if case.get('history'):
+        h = case['history']
+        tags.add('history:entry:' + h['entry'])
+        tags.add('history:steps:%d' % len(h['steps']))
+        if len(set(history_platforms(case))) > 1:
+            tags.add('history:platform-changes-between-steps')
+    if any(c.get('rvars') for c in case['comps']):
+        tags.add('reference-in-variable')
+    return sorted(tags), nontrivial
+
+
+def _features(case):
     exp = expected(case)
     tags = ['kind:' + case.get('kind', '?'), 'ncomp:%d' % len(case['comps'])] + scope_tags(case)
+    if any(c.get('rvars') for c in case['comps']):
+        tags.append('reference-in-variable')
     if 'error' in exp:
         tags.append('expected:' + exp['error'])
         return tags, False
@@ -1189,7 +1675,7 @@ def features(case):
         if h.get('instantiate'):
             tags.append('history:instantiate+reload')
         sets = []
-        for _label, files, prim in history_steps(case):
+        for _label, files, prim, _plat in history_steps(case):
             if prim:
                 tags.append('history:primitive-step')
                 continue
@@ -1213,13 +1699,27 @@ def parse_free(r):
 # checking
 # ----------------------------------------------------------------------------------------
 
+NESTED = set()      # (component id, variable) whose value refers to another variable: handed back resolved or as written
+
+
+def _nested_of(mtext):
+    res = set()
+    for o in mtext:
+        for blk in (o, o.get('layered') or {}):
+            for a, b in (blk.get('vars') or []):
+                if '%(' in str(b):
+                    res.add((o['id'], str(a)))
+    return res
+
+
 def canon_text(comps, copies):
     """`copies` = ids of the components that are copies (the model's view): `replicate` is compared for those only
     (a component that is not expanded keeps whatever the document says)"""
     res = []
     for c in comps:
         v = c.get('vars')
-        v = sorted([str(a), str(b)] for a, b in (v.items() if isinstance(v, dict) else (v or [])))
+        v = sorted([str(a), str(b)] for a, b in (v.items() if isinstance(v, dict) else (v or []))
+                   if (c['id'], str(a)) not in NESTED)
         res.append([c['id'], c['refs'], c['args'], v, c['replicate'] if c['id'] in copies else None])
     return sorted(res, key=lambda x: (x[0], str(x)))
 
@@ -1227,7 +1727,7 @@ def canon_text(comps, copies):
 def compare_history(ctx, case, out, mh):
     """model of the configuration object (ReplConf) vs the real one, step by step, at the graph level"""
     hist = out.get('history') or []
-    for k, (label, _files, prim) in enumerate(history_steps(case)):
+    for k, (label, _files, prim, _plat) in enumerate(history_steps(case)):
         if prim or k >= len(hist) or hist[k] is None or k >= len(mh['steps']) or mh['steps'][k] is None \
                 or 'skipped' in hist[k]:
             continue
@@ -1252,52 +1752,95 @@ def compare_history(ctx, case, out, mh):
 
 def check_cases(ctx, cases, keep=None):
     cases = [normalise(c) for c in cases]
-    mouts = ctx.model([model_request(c) for c in cases])
-    hidx = [i for i, c in enumerate(cases) if c.get('history')]
+    pairs = [(i, p) for i, c in enumerate(cases) for p in drive_of(c)]
+    mres = ctx.model([model_request(cases[i], p) for i, p in pairs])
+    mouts = dict(zip(pairs, mres)) if mres is not None else None
+    # the model of the configuration object knows one document: histories that stay on one platform
+    hidx = [i for i, c in enumerate(cases) if c.get('history') and len(set(history_platforms(c))) == 1]
     hmouts = ctx.model([model_history_request(cases[i]) for i in hidx]) if (hidx and mouts is not None) else None
     hm = dict(zip(hidx, hmouts)) if hmouts is not None else {}
     for idx, case in enumerate(cases):
-        out = impl_run(case)
+        outs = impl_all(case)
         if keep is not None:
-            keep(case, out)
+            keep(case, outs)
+        first = outs[drive_of(case)[0]]
         if idx in hm:
-            compare_history(ctx, case, out, hm[idx])
+            compare_history(ctx, case, first, hm[idx])
         tags, nontrivial = features(case)
-        ctx.case(case, nontrivial=nontrivial, tags=tags + [
-            'impl:' + ('graph-error:' + out['graph_error'].split(':')[0] if 'graph_error' in out else 'loaded')])
-        for what, detail in oracle(case, out):
+        ctx.case(case, nontrivial=nontrivial, tags=list(tags) + [
+            'impl:' + ('graph-error:' + first['graph_error'].split(':')[0] if 'graph_error' in first else 'loaded')])
+        for what, detail in oracle_all(case, outs):
+            out = outs.get(detail.get('platform')) or first
             ctx.fail(what, case, dict(detail, impl={k: out[k] for k in out if k.endswith('error')}))
         if mouts is None:
             continue
-        m = mouts[idx]
-        ctx.compare('model rendering of the declared references == generated reference strings', case,
-                    m['in_refs'], [[render(r) for r in c['refs']] for c in case['comps']])
+        for p in drive_of(case):
+            compare_model(ctx, case, effective(case, p), p, mouts[(idx, p)], outs[p])
+
+
+def known_override_defect(case, platform):
+    """(until fixes/C03-override-block-replication.diff is applied) the model is the REPAIRED code: the read-back
+    view is not compared on the inputs the two classified defects of the unrepaired code concern"""
+    return platform != 'default' and (aggregator_override_restates_references(case, platform) or
+                                      override_defines_replica(case, platform))
+
+
+def canon_layered(view):
+    res = []
+    for c in view:
+        v = c.get('vars')
+        v = sorted([str(a), str(b)] for a, b in (v.items() if isinstance(v, dict) else (v or []))
+                   if (c['id'], str(a)) not in NESTED)
+        res.append([c['id'], c['refs'], c['args'], v])
+    return sorted(res, key=lambda x: (x[0], str(x)))
+
+
+def compare_model(ctx, full, case, platform, m, out):
+    """model vs implementation for the workflow `case` = effective(full, platform)"""
+    if True:
+        ctx.compare('model rendering of the declared references (ReplOver.layerRaw of the platform) == generated '
+                    'reference strings', full, m['in_refs'], [[render(r) for r in c['refs']] for c in case['comps']])
         if 'error' in m:
             ctx.tag('model:error:' + m['error'])
             if m['error'] == 'duplicate':
                 impl_err = out.get('graph_error', 'accepted')
             else:
                 impl_err = out.get('replicate_error', 'accepted')
-            ctx.compare('replication error kind == Repl.expand error', case, {'error': m['error']}, {'error': impl_err})
+            ctx.compare('replication error kind == Repl.expand error', full, {'error': m['error']}, {'error': impl_err})
             if m['error'] != 'duplicate':
                 for r in out.get('runs', []):
                     ctx.compare('apply_replicate(components in a chosen processing order) error kind == '
-                                'ReplVars.expandRaw error', case, {'error': m['error']},
+                                'ReplVars.expandRaw error', full, {'error': m['error']},
                                 {'error': r.get('error', 'accepted')})
-            continue
+            return
         ctx.tag('model:ok')
         if 'replicate_error' in out:
-            ctx.compare('replicated components == Repl.goText', case, 'ok', {'error': out['replicate_error']})
-            continue
+            ctx.compare('replicated components == Repl.goText', full, 'ok', {'error': out['replicate_error']})
+            return
+        case = full
+        NESTED.clear()
+        NESTED.update(_nested_of(m['text']))
+        if 'layered' in out and not known_override_defect(full, platform):
+            mlay = [dict(o['layered'], id=o['id']) for o in m['text']]
+            ctx.compare('replicated FlowIR read back through get_component_configuration(platform) == '
+                        'ReplOver.readBack of ReplOver.goBlocks', full, canon_layered(mlay),
+                        canon_layered(out['layered']) if isinstance(out['layered'], list) else out['layered'])
+            for r in out.get('runs', []):
+                if 'layered' in r:
+                    ctx.compare('apply_replicate(chosen processing order) read back through '
+                                'get_component_configuration(platform) == ReplOver.readBack', full, canon_layered(mlay),
+                                canon_layered(r['layered']) if isinstance(r['layered'], list) else r['layered'])
         copies = {o['id'] for o in m['text'] if o['replica'] is not None}
         ctx.compare('replicated components (references, arguments, variables, replicate) == Repl.goText + '
-                    'ReplVars.goVars', case, canon_text(m['text'], copies), canon_text(out['comps'], copies))
+                    'variables of ReplOver.goBlocks', case, canon_text(m['text'], copies), canon_text(out['comps'], copies))
         for r in out.get('runs', []):
             # the model's answer does not depend on the processing order (resolveAll_perm,
             # count_independent_of_siblings): the code must give it for every order
             ctx.compare('apply_replicate(components in a chosen processing order) == Repl.goText of '
                         'ReplVars.resolveAll', case, canon_text(m['text'], copies),
                         canon_text(r['comps'], copies) if 'comps' in r else {'error': r['error'], 'order': r['order']})
+        if known_override_defect(full, platform):
+            return
         if 'graph_error' in out:
             ctx.compare('loader verdict == Repl.expand verdict', case, 'loaded', {'error': out['graph_error']})
         else:
@@ -1320,22 +1863,39 @@ def shrink(what, case):
     import time
     deadline = time.time() + 20
 
+    def well_formed(c):
+        """a variable that holds a reference holds one the component declares (on every platform concerned)"""
+        for p in set(drive_of(c) + (history_platforms(c) if c.get('history') else [])):
+            for x in effective(c, p)['comps']:
+                if any(not any(_same_ref(r, y) for y in x['refs']) for r in (x.get('rvars') or {}).values()):
+                    return False
+        return True
+
     def fails(c):
         stages = sorted({x['stage'] for x in c['comps']})
-        if stages != list(range(len(stages))) or time.time() > deadline:
+        if stages != list(range(len(stages))) or time.time() > deadline or not well_formed(c):
             return False            # (out of time: keep what has been reached so far)
         try:
-            return any(w == what for w, _ in oracle(c, impl_run(c)))
+            return any(w == what for w, _ in oracle_all(c, impl_all(c)))
         except Exception:  # noqa
             return False
+
+    def plain_args(x, refs, old):
+        a = ' '.join(render(r) for r in refs if not (r['comp'] and r['method'] == 'copyout'))
+        for nm in RVAR_NAMES:
+            if '%%(%s)s' % nm in old:
+                a += ' --%s=%%(%s)s' % (nm, nm)
+        if '%(replica)s' in old:
+            a += ' rep=%(replica)s'
+        return a.strip()
 
     def plain(c):
         c = copy.deepcopy(c)
         for x in c['comps']:
-            keep_rep = '%(replica)s' in x['args']
-            x['args'] = ' '.join(render(r) for r in x['refs'] if not (r['comp'] and r['method'] == 'copyout'))
-            if keep_rep:
-                x['args'] = (x['args'] + ' rep=%(replica)s').strip()
+            x['args'] = plain_args(x, x['refs'], x['args'])
+            for o in (x.get('over') or {}).values():
+                if o.get('args') is not None:
+                    o['args'] = plain_args(x, o['refs'] if o.get('refs') is not None else x['refs'], o['args'])
         c['order'] = list(range(len(c['comps'])))
         c['orders'] = shrink_orders(len(c['comps'])) if not c.get('history') else [c['order']]
         return c
@@ -1344,6 +1904,30 @@ def shrink(what, case):
     cur = plain(case)
     if not fails(cur):
         return case
+    # platforms: one driven platform, as few override blocks / platform sections as possible
+    if has_platforms(cur):
+        for p in drive_of(cur):
+            cand = dict(copy.deepcopy(cur), drive=[p])
+            if len(drive_of(cur)) > 1 and fails(cand):
+                cur = cand
+                break
+        for ci in range(len(cur['comps'])):
+            for p in sorted(cur['comps'][ci].get('over') or {}):
+                cand = copy.deepcopy(cur)
+                del cand['comps'][ci]['over'][p]
+                if fails(cand):
+                    cur = cand
+                    continue
+                for f in sorted(cur['comps'][ci]['over'][p]):
+                    cand = copy.deepcopy(cur)
+                    del cand['comps'][ci]['over'][p][f]
+                    if fails(cand):
+                        cur = cand
+        for p in sorted(cur.get('plats') or {}):
+            cand = copy.deepcopy(cur)
+            cand['plats'][p] = {}
+            if fails(cand):
+                cur = cand
     # a history: as few steps as possible, no instantiation
     if cur.get('history'):
         h = cur['history']
@@ -1371,8 +1955,13 @@ def shrink(what, case):
             cand = copy.deepcopy(cur)
             gone = cand['comps'].pop(i)
             for c in cand['comps']:
-                c['refs'] = [r for r in c['refs']
-                             if not (r['comp'] and (r['stage'], r['name']) == (gone['stage'], gone['name']))]
+                for blk in [c] + [o for o in (c.get('over') or {}).values() if o.get('refs') is not None]:
+                    blk['refs'] = [r for r in blk['refs']
+                                   if not (r['comp'] and (r['stage'], r['name']) == (gone['stage'], gone['name']))]
+                for blk in [c] + list((c.get('over') or {}).values()):
+                    for nm in [a for a, r in (blk.get('rvars') or {}).items()
+                               if (r['stage'], r['name']) == (gone['stage'], gone['name'])]:
+                        del blk['rvars'][nm]
             cand = plain(cand)
             if cand['comps'] and fails(cand):
                 cur, changed = cand, True
@@ -1390,10 +1979,22 @@ def shrink(what, case):
         for ci in range(len(cur['comps'])):
             for ri in range(len(cur['comps'][ci]['refs']) - 1, -1, -1):
                 cand = copy.deepcopy(cur)
-                cand['comps'][ci]['refs'].pop(ri)
+                gone_ref = cand['comps'][ci]['refs'].pop(ri)
+                for blk in [cand['comps'][ci]] + list((cand['comps'][ci].get('over') or {}).values()):
+                    for nm in [a for a, r in (blk.get('rvars') or {}).items() if _same_ref(r, gone_ref)]:
+                        del blk['rvars'][nm]
                 cand = plain(cand)
                 if fails(cand):
                     cur, changed = cand, True
+            for p in sorted(cur['comps'][ci].get('over') or {}):
+                orefs = cur['comps'][ci]['over'][p].get('refs')
+                for ri in range(len(orefs or []) - 1, -1, -1):
+                    cand = copy.deepcopy(cur)
+                    cand['comps'][ci]['over'][p]['refs'].pop(ri)
+                    cand['comps'][ci]['over'][p].pop('rvars', None)
+                    cand = plain(cand)
+                    if fails(cand):
+                        cur, changed = cand, True
             for ri in range(len(cur['comps'][ci]['refs'])):
                 r = cur['comps'][ci]['refs'][ri]
                 for key, val in (('file', None), ('method', 'ref')):
@@ -1427,14 +2028,30 @@ def R(stage, name, long=False, file=None, method='ref'):
     return {'comp': True, 'stage': stage, 'long': long, 'name': name, 'file': file, 'method': method}
 
 
-def K(stage, name, refs=(), n=None, agg=None, args=None, vars=None):
+def K(stage, name, refs=(), n=None, agg=None, args=None, vars=None, over=None, rvars=None):
     refs = list(refs)
     if isinstance(n, str):
         repl = {'how': 'var', 'var': n}
     else:
         repl = {'n': n, 'how': 'int'} if n else None
-    return {'stage': stage, 'name': name, 'refs': refs, 'repl': repl, 'agg': agg, 'vars': dict(vars or {}),
-            'args': ' '.join(render(r) for r in refs) if args is None else args}
+    c = {'stage': stage, 'name': name, 'refs': refs, 'repl': repl, 'agg': agg, 'vars': dict(vars or {}),
+         'args': ' '.join(render(r) for r in refs) if args is None else args}
+    if over:
+        c['over'] = copy.deepcopy(over)
+    if rvars:
+        c['rvars'] = copy.deepcopy(rvars)
+    return c
+
+
+def O(refs=None, args=None, **kw):
+    """an override block"""
+    o = dict(kw)
+    if refs is not None:
+        o['refs'] = list(refs)
+        o['args'] = ' '.join(render(r) for r in refs) if args is None else args
+    elif args is not None:
+        o['args'] = args
+    return o
 
 
 CORPUS = [
@@ -1522,6 +2139,49 @@ CORPUS = [
                            {'files': [{'stages': {'0': {'n': '2'}}, 'global': {'doAggregate': 'yes'}}],
                             'primitive': False},
                            {'files': [], 'primitive': False}]}},
+    # a consumer of a replicated producer whose override block for `hpc` restates references and command line (a
+    # further, non-replicated producer on that platform): copy i consumes copy i on hpc as well
+    {'kind': 'corpus:override-references', 'gvars': {}, 'svars': {}, 'plats': {'hpc': {}}, 'drive': ['default', 'hpc'],
+     'comps': [K(0, 'Simulate', n=2, args='rep=%(replica)s'), K(0, 'Reference'),
+               K(0, 'Analyse', [R(0, 'Simulate')],
+                 over={'hpc': O([R(0, 'Simulate'), R(0, 'Reference')])}),
+               K(1, 'Collect', [R(0, 'Analyse', long=True)], agg=True)]},
+    # the aggregator itself restates its references on the platform
+    {'kind': 'corpus:override-aggregator-references', 'gvars': {}, 'svars': {}, 'plats': {'hpc': {}}, 'drive': ['hpc'],
+     'comps': [K(0, 'Simulate', n=2), K(0, 'Reference'),
+               K(0, 'Analyse', [R(0, 'Simulate')]),
+               K(1, 'Collect', [R(0, 'Analyse', long=True)], agg=True,
+                 over={'hpc': O([R(0, 'Analyse', long=True), R(0, 'Reference', long=True)],
+                                args='-x stage0.Analyse:ref/out.txt stage0.Reference:ref')})]},
+    # the override block defines `replica` (and the count comes from the platform's global section, which wins over
+    # the default section of the stage)
+    {'kind': 'corpus:override-replica-variable', 'gvars': {'n': 2}, 'svars': {'0': {'n': 5}},
+     'plats': {'cloud': {'global': {'n': '3'}}}, 'drive': ['cloud', 'default'],
+     'comps': [K(0, 'Simulate', n='n', args='rep=%(replica)s'),
+               K(0, 'Analyse', [R(0, 'Simulate')], args='Simulate:ref rep=%(replica)s',
+                 over={'cloud': O(args='-c Simulate:ref rep=%(replica)s', vars={'replica': 7, 'unused': 'y'})})]},
+    # references inside component-level variables, also inside the override block; replicate restated per platform
+    {'kind': 'corpus:override-reference-in-variable', 'gvars': {}, 'svars': {}, 'plats': {'hpc': {}, 'cloud': {}},
+     'drive': ['hpc', 'cloud', 'default'],
+     'comps': [K(0, 'A', n=2, over={'hpc': {'repl': {'how': 'int', 'n': 3}}}), K(0, 'BA'),
+               K(0, 'C', [R(0, 'A', file='out.txt', method='copy'), R(0, 'BA')],
+                 args='--inp=%(inp)s BA:ref', rvars={'inp': R(0, 'A', file='out.txt', method='copy')},
+                 over={'hpc': O(args='--feed=%(feed)s %(inp)s', rvars={'feed': R(0, 'BA', long=True)}),
+                       'cloud': O([R(0, 'BA'), R(0, 'A', long=True, file='out.txt', method='copy')],
+                                  args='%(inp)s BA:ref')})]},
+    # one configuration object re-parametrised from the default platform to hpc and back
+    {'kind': 'corpus:override-history', 'gvars': {'points': 2}, 'svars': {}, 'plats': {'hpc': {'global': {'points': 3}}},
+     'drive': ['hpc'],
+     'comps': [K(0, 'sample', n='points'), K(0, 'ref'),
+               K(1, 'analyse', [R(0, 'sample', long=True)],
+                 over={'hpc': O([R(0, 'ref', long=True), R(0, 'sample', long=True)])}),
+               K(1, 'collect', [R(1, 'analyse')], agg=True)],
+     'history': {'entry': 'conf',
+                 'steps': [{'files': [], 'primitive': False},
+                           {'files': [{'global': {'points': 4}}], 'primitive': False, 'platform': 'hpc'},
+                           {'files': [], 'primitive': True},
+                           {'files': [], 'primitive': False, 'platform': 'hpc'},
+                           {'files': [], 'primitive': False}]}},
 ]
 
 
@@ -1553,7 +2213,22 @@ def run(ctx):
                 "under the user variables of that step. A sample of 60 (quick) / 300 (thorough) cases + the corpus is "
                 "run again at the end in another order, and a third of them once more with all loggers enabled at "
                 "DEBUG level: identical answers required. "
-                "non-trivial = the expected expansion has at least one copy and at least one component whose "
+                "kind 'platform' (about 1 in 5; 1 in 7 of them with a history whose steps name a platform each, also "
+                "changing between the steps of one configuration object): the document lists 1-2 further platforms "
+                "(hpc/cloud/lsf-gpu) with their own global / stage sections for the variables the counts and flags "
+                "come from (so that the platform's global value competes with the default section of the stage), and "
+                "components carry override.<platform> blocks restating references (re-spelled, reordered, with "
+                "further producers, sometimes without one), command.arguments, variables (decoys for the count / flag "
+                "variables, `replica`, unused names), workflowAttributes.replicate / aggregate; every path is driven "
+                "on the platforms of case['drive'] (one or two, mostly non-default) and the replicated FlowIR is also "
+                "read back through FlowIRConcrete(replicated, platform).get_component_configuration(raw=True); the "
+                "oracle is evaluated on the workflow the document stands for on that platform. In 3 of 10 workflows "
+                "component-level variables (also inside override blocks) hold a declared reference and are used on "
+                "the command line through %(name)s. "
+                "non-trivial (platform cases) = on a driven non-default platform the expansion has a copy, a rewired "
+                "component, and some component that consumes a replicated producer has an override block restating "
+                "references / command line / a reference-valued variable; "
+                "non-trivial (other cases) = the expected expansion has at least one copy and at least one component whose "
                 "references are rewired (history: two replicated steps of the history must give different "
                 "expansions); distinct by canonical JSON of the case.")
     ctx.assumptions = [
@@ -1571,21 +2246,37 @@ def run(ctx):
         "_patch_in_variable_files does; layering of several files is C15's subject)",
         "a component-level variable whose value refers to another variable (replica: '%(n)s') is not compared in "
         "components that are not copies (the configuration object hands it back resolved, the FlowIR as written)",
+        "the workflow a document stands for on platform p: global variables = default global section updated with "
+        "p's; variables of a stage = default section of the stage without the names p's global section defines, "
+        "updated with p's section of the stage; every component with its override.p block layered on top "
+        "(dictionaries merged key by key, lists and strings replaced) -- the layering itself is C04's subject, here "
+        "it defines which workflow is replicated; inside an override block replicate is an int or %(var)s and "
+        "aggregate a bool or %(var)s (the loader's schema)",
+        "a variable that holds a reference holds exactly one reference string the component declares on that "
+        "platform, and only in components that never aggregate; references inside global / stage variables are not "
+        "generated (the code rewrites the strings of the component only)",
     ]
     ctx.trusted.append("C03: networkx.topological_sort (the model receives the components in a topological order "
                        "computed by the generator); FlowIRConcrete.instance() as the provider of the global/stage "
-                       "scopes handed to apply_replicate; variable values without nested %(..)s references")
+                       "scopes handed to apply_replicate on the default platform (on other platforms the scopes and the "
+                       "layering of override blocks are modelled: ReplOver.platGlobal/platStage/layerRaw, compared "
+                       "through the resolved counts); variable values without nested %(..)s references")
     rng = ctx.rng
     quick = ctx.tier == 'quick'
     cases = [dict(c, order=list(range(len(c['comps']))), orders=shrink_orders(len(c['comps']))) for c in CORPUS]
-    n = 700 if quick else 8000
-    nh = 150 if quick else 1200
+    n = 420 if quick else 4500
+    nh = 90 if quick else 800
+    npl = 130 if quick else 1800
     for i in range(n):
         cases.append(gen_case(rng))
         if i * nh // n != (i + 1) * nh // n:       # the histories are spread over the run
             hc = gen_history_case(rng)
             if hc:
                 cases.append(hc)
+        if i * npl // n != (i + 1) * npl // n:     # and so are the workflows with platforms
+            pc = gen_platform_case(rng, with_history=(rng.random() < 0.15))
+            if pc:
+                cases.append(pc)
     # E: a sample of the cases is run again at the end (another order, after all the others), once with the same
     # ambient settings and once with logging enabled
     chosen = set(rng.sample(range(len(cases)), min(len(cases), 60 if quick else 300)))
@@ -1614,15 +2305,17 @@ def rerun(ctx, first):
             case, before = first[i]
             if mode == 'logging-debug' and i % 3:
                 continue
-            again = json.dumps(run_with_logging(case) if mode == 'logging-debug' else impl_run(case),
+            again = json.dumps(run_with_logging(case) if mode == 'logging-debug' else impl_all(case),
                                sort_keys=True, default=str)
             ctx.tag('rerun:' + mode)
             if again != before:
                 a, b = json.loads(before), json.loads(again)
+                plat = next(p for p in a if a[p] != b.get(p))
+                a, b = a[plat], b.get(plat) or {}
                 keys = sorted(k for k in set(a) | set(b) if a.get(k) != b.get(k))
                 ctx.fail('result-depends-on-earlier-cases' if mode == 'same-settings'
                          else 'result-depends-on-logging-level', case,
-                         {'differs_in': keys, 'first': {k: a.get(k) for k in keys[:2]},
+                         {'differs_in': keys, 'on_platform': plat, 'first': {k: a.get(k) for k in keys[:2]},
                           'again': {k: b.get(k) for k in keys[:2]}, 'mode': mode})
         idxs.reverse()
 
@@ -1638,7 +2331,7 @@ def run_with_logging(case):
         real_disable(logging.NOTSET)
         root.handlers = [sink]
         root.setLevel(logging.DEBUG)
-        return impl_run(case)
+        return impl_all(case)
     finally:
         logging.disable = real_disable
         root.handlers = handlers
